@@ -27,6 +27,7 @@ CFG = {
         'truncation: C18_trunc_any - for EVERY operand, byte string and cut, debug assertions on or off, the truncated call fails with UnexpectedEof or does exactly what the full call does; hence C18_trunc: for conformant streams an EOF error or the correct value, never a panic, never a different value',
         'also for arbitrary byte strings: C18_no_panic_release, C18_header_error, C18_empty_left, C18_header_cursor',
         'descrSearch models binary_search only on key-sorted descriptions (all conformant streams)',
+        'model-fidelity audit (notes/fidelity-codecs.md): both paths of intersection_with_serialized_unchecked are classified M: the offset path (loop over self.containers, seek(Start(offsets[i])), no ensure_correct_store before `&=`) and the sequential path (the kind x found matrix is written found-first in the model and kind-first in Rust: same six cells, `runs` read before the match, skip sizes 4*runs / 2*card / 8192); descrSearch is class A (std binary search; agrees on strictly ascending description keys only)',
     ],
     "level_text": "Lean model of both paths of intersection_with_serialized_unchecked over a seekable cursor, with theorems for "
                   "the value on every conformant stream and for every truncation; result also compared at run time with a ∩ Spec.decode(s) (independent reference decoder) "
